@@ -6,6 +6,9 @@ mod sched;
 #[cfg(not(feature = "inprocess"))]
 mod zeroshm;
 #[cfg(not(feature = "inprocess"))]
+mod sigwait;
+mod setburst;
+#[cfg(not(feature = "inprocess"))]
 mod setsched;
 mod values;
 mod chan;
@@ -44,7 +47,10 @@ fn main() {
         #[cfg(not(feature = "inprocess"))]
         "zeroshm" => zeroshm::run(),
         #[cfg(not(feature = "inprocess"))]
+        "sigwait" => sigwait::run(),
+        #[cfg(not(feature = "inprocess"))]
         "sched-child" => sched::child_main(&args[2..]),
+        "setburst" => setburst::run(),
         "values" => values::run(),
         "chan" => chan::run(args.get(2).map(|s| s.as_str()).unwrap_or("thread")),
         "agent" => chan::agent_main(&args[2]),
